@@ -618,6 +618,56 @@ func runC13(r *Run) {
 	closeR.Done()
 
 	// "after Close every call returns ErrAgentClosed": it returns, i.e. no path leaves the mutex held
+	// ---- the handler field never holds nil while the agent is open
+	sh := r.Rule("C13.sethandler", "every value stored into the agent's handler field is non-nil on the path of the store (a guarded parameter or a function value), except the nil stored by the method that marks the agent closed: an event never calls a nil function", 2)
+	for _, fn := range p.LibFuncs() {
+		var stores []*ssa.Store
+		setsClosed := false
+		for _, a := range sharedAccesses(fn, map[*types.Var]bool{m.Handler: true, m.Closed: true}) {
+			st, ok := a.In.(*ssa.Store)
+			if !ok || a.Kind != "store" {
+				continue
+			}
+			if a.Field == m.Handler {
+				stores = append(stores, st)
+			}
+			if a.Field == m.Closed {
+				if c, isC := st.Val.(*ssa.Const); isC && c.Value != nil && c.Value.String() == "true" {
+					setsClosed = true
+				}
+			}
+		}
+		if len(stores) == 0 {
+			continue
+		}
+		r.Analysed(fn)
+		isStore := map[ssa.Instruction]bool{}
+		for _, st := range stores {
+			isStore[st] = true
+		}
+		rep := map[ssa.Instruction]bool{}
+		q := &PathQuery{P: p, Fn: fn}
+		q.Step = func(in ssa.Instruction, deferred bool, st uint64, c *PathCtx) (uint64, bool) {
+			if !isStore[in] || rep[in] {
+				return st, false
+			}
+			v := in.(*ssa.Store).Val
+			ns := c.NilState(v)
+			if ns == -1 {
+				return st, false
+			}
+			if ns == +1 && setsClosed {
+				return st, false // Close drops the handler of an agent that will never emit again
+			}
+			rep[in] = true
+			sh.ViolationPath(fn, instrPos(in), "handler = "+exprDepth(c.Resolve(v), 0), "the handler field may be set to nil while the agent is open (NewAgent replaces a nil handler by the no-op handler, this store does not): the next event unregisters its transaction and then calls a nil function - the terminal event is lost in a panic, and Close panics while holding the mutex so that every later call blocks", c.Witness(fn, in))
+			return st, false
+		}
+		q.Run()
+		sh.Instance(fnName(fn)+"|handler stores", true, map[string]interface{}{"fn": fnName(fn), "stores": len(stores), "marks_closed": setsClosed})
+	}
+	sh.Done()
+
 	r.Borrow("C14", map[string]string{"C14.release": "C13.release"})
 }
 
